@@ -12,7 +12,7 @@ THEOREMS = ["SCP.RegexFuel.addThreads_stable", "SCP.RegexFuel.addThreads_model_f
             "SCP.Termination.unitPass_mu", "SCP.Termination.unitLoop_stable", "SCP.Termination.model_fuel_suffices",
             "SCP.Termination.gen_rules_ok", "SCP.Termination.gen_units_ok",
             "SCP.ParserTotal.parseExpr_total", "SCP.ParserTotal.parseExpr_consumes"]
-RULE = ("texts from four streams (random characters over a hostile alphabet incl. multi-byte, atoms, braces, long digit "
+RULE = ("texts from five streams (clock literals in the extreme zones under default zones at the other extreme; random characters over a hostile alphabet incl. multi-byte, atoms, braces, long digit "
         "runs; well-formed lines of all kinds with one random corruption; a curated list of panic-prone shapes; "
         "multi-line texts with LF/CRLF/mixed/trailing separators) x language tags en, tr, unknown, empty x "
         "configurations from all public setters; non-trivial = the text contains at least one token-forming "
@@ -207,6 +207,14 @@ def run(ctx, model_ok):
     for lang in ["xx", "", "EN", "tr", "de"]:
         for t in ["1 + 2", "", "hello", "5 usd", "jan 5", "{TEXT:a}", "10 days"]:
             cases.append(([], lang, t))
+    # the extreme zones of the table and of the GMT syntax against each other: literals in one extreme zone evaluated under a
+    # default zone at the other end (offset differences of a day and more), two zones on one line
+    far_w, far_e = ["NUT", "SST", "HAST", "GMT-11", "GMT-12", "GMT-12:30"], ["LINT", "NZDT", "TKT", "GMT+14", "GMT+13:45", "GMT+12:30"]
+    for dz in far_w + far_e + ["UTC"]:
+        for z in rng.sample(far_w + far_e, 5):
+            t_ = rng.choice(["10:00", "9:30 pm", "23:59:59", "0:00", "11:30"])
+            for text in (f"{t_} {z}", f"1 + 2\n{t_} {z}\n3 * 4", f"{t_} {z} {rng.choice(far_w + far_e)}", f"{t_} {z} to {rng.choice(far_w + far_e)}", f"{t_} {z} + 1 hour"):
+                cases.append(([] if dz == "UTC" else [{"op": "tz", "v": dz}], "en", text))
     n = ctx.n(2500, 150000)
     for _ in range(n):
         lang = rng.choice(["en"] * 6 + ["tr"] * 3 + ["xx"])
